@@ -712,6 +712,13 @@ var deepProof = &core.Check{Name: "c18/deep", Quick: 40, Thorough: 3000, Fn: fun
 		return deepDict(c)
 	}
 	d := drawDepth(c, "depth")
+	levels := 1 + c.Intn("levels", 3)
+	if c.Intn("to the limit", 4) == 0 {
+		// the deepest tree a proof can be made of: depth 1023 (the Merkle proof cell above it has depth 1024,
+		// the largest depth that can be hashed), and one and two levels less
+		d = 1023 - levels - c.Weighted("below the limit", 3, 1, 1)
+		c.Class("tree at the depth limit")
+	}
 	head, idx := chain(core.NewSplitMix(c.U64("chain")), d)
 	if head.Depth(0) != d {
 		return fmt.Errorf("HARNESS: chain of depth %d, want %d", head.Depth(0), d)
@@ -720,7 +727,7 @@ var deepProof = &core.Check{Name: "c18/deep", Quick: 40, Thorough: 3000, Fn: fun
 	r := core.NewSplitMix(c.U64("top"))
 	root := head
 	var headPath []int
-	for lv, levels := 0, 1+c.Intn("levels", 3); lv < levels; lv++ {
+	for lv := 0; lv < levels; lv++ {
 		refs := []*ref.RCell{root}
 		at := 0
 		for s, ns := 0, c.Intn("sides", 4); s < ns; s++ {
